@@ -437,3 +437,69 @@ def flow_expand(fi, expr, anchor):
 
     walk(fi.node.body)
     return S().visit(copy.deepcopy(expr))
+
+
+MUTATORS = frozenset("append extend insert pop remove clear update setdefault add discard popitem sort reverse __setitem__ __delitem__".split())
+
+
+def mutable_module_state(idx):
+    """Module-level names that hold state surviving between calls: bound at module level and then mutated (item store / delete,
+    mutating method, augmented assignment) or rebound through `global` by some function.  A table nobody mutates is a constant.
+    -> {(module name, name): [(fi, node, how), ...]}"""
+    memo = getattr(idx, "_mutable_state", None)
+    if memo is not None:
+        return memo
+    out = {}
+    for fi in idx.funcs:
+        node = getattr(fi, "node", None)
+        if node is None:
+            continue
+        mod = fi.module
+        declared_global = set()
+        locals_ = set()
+        for n in own_nodes(node):
+            if isinstance(n, ast.Global):
+                declared_global.update(n.names)
+        for n in own_nodes(node):
+            if isinstance(n, ast.Name) and isinstance(n.ctx, ast.Store) and n.id not in declared_global:
+                locals_.add(n.id)
+        for a in node.args.args + node.args.kwonlyargs + ([node.args.vararg] if node.args.vararg else []) + ([node.args.kwarg] if node.args.kwarg else []):
+            locals_.add(a.arg)
+
+        def is_global(nm):
+            return nm in mod.consts and nm not in locals_
+
+        for n in own_nodes(node):
+            if isinstance(n, ast.Name) and isinstance(n.ctx, (ast.Store, ast.Del)) and n.id in declared_global:
+                out.setdefault((mod.name, n.id), []).append((fi, n, "rebinds the global"))
+            elif isinstance(n, ast.Subscript) and isinstance(n.ctx, (ast.Store, ast.Del)) and isinstance(n.value, ast.Name) and is_global(n.value.id):
+                out.setdefault((mod.name, n.value.id), []).append((fi, n, "stores an item"))
+            elif isinstance(n, ast.Call) and isinstance(n.func, ast.Attribute) and n.func.attr in MUTATORS and isinstance(n.func.value, ast.Name) and is_global(n.func.value.id):
+                out.setdefault((mod.name, n.func.value.id), []).append((fi, n, "calls .%s()" % n.func.attr))
+            elif isinstance(n, ast.AugAssign) and isinstance(n.target, ast.Name) and n.target.id in declared_global:
+                out.setdefault((mod.name, n.target.id), []).append((fi, n, "updates the global in place"))
+    idx._mutable_state = out
+    return out
+
+
+def state_uses(idx, fi):
+    """reads or writes of mutable module state in `fi` and the helpers it reaches -> [(helper fi, node, (module, name))]"""
+    state = mutable_module_state(idx)
+    if not state:
+        return []
+    hits = []
+    for f_ in helper_closure(idx, fi):
+        node = getattr(f_, "node", None)
+        if node is None:
+            continue
+        shadow = {a.arg for a in node.args.args}
+        for n in own_nodes(node):
+            if isinstance(n, ast.Name) and (f_.module.name, n.id) in state and n.id not in shadow:
+                hits.append((f_, n, (f_.module.name, n.id)))
+            elif isinstance(n, ast.Attribute) and isinstance(n.value, ast.Name):
+                q = idx.qualname(f_.module, n, f_) or ""
+                if "." in q:
+                    m_, a_ = q.rsplit(".", 1)
+                    if (m_, a_) in state:
+                        hits.append((f_, n, (m_, a_)))
+    return hits
